@@ -196,6 +196,9 @@ type Disk map[string][]byte
 const DirMarker = "\x00dir"
 
 // ReadDisk reads everything under root+prefix (nominal paths as keys).
+// LinkMarker prefixes the recorded content of a symbolic link.
+const LinkMarker = "\x00symlink:"
+
 func ReadDisk(root string, skip func(nominal string) bool) (Disk, error) {
 	d := Disk{}
 	err := filepath.WalkDir(root, func(p string, e fs.DirEntry, err error) error {
@@ -211,6 +214,15 @@ func ReadDisk(root string, skip func(nominal string) bool) (Disk, error) {
 		}
 		if e.IsDir() {
 			d[nom] = []byte(DirMarker)
+			return nil
+		}
+		if e.Type()&fs.ModeSymlink != 0 {
+			// a symbolic link is recorded as such (not as the content it points to)
+			target, lerr := os.Readlink(p)
+			if lerr != nil {
+				return lerr
+			}
+			d[nom] = []byte(LinkMarker + target)
 			return nil
 		}
 		b, err := os.ReadFile(p)
